@@ -88,6 +88,9 @@ type node struct {
 
 	answered int
 	servable map[int64]bool
+	// hostileLayout: some served commits are not laid out one slot per validator (repeated / foreign signatures). The
+	// property does not say whether such a header must be accepted, so nothing is REQUIRED of the client about them.
+	hostileLayout bool
 }
 
 func (n *node) String() string  { return fmt.Sprintf("node%d(%s)", n.id, n.kind) }
@@ -95,7 +98,7 @@ func (n *node) ChainID() string { return n.chainID }
 
 // static: answers depend on the height only, and no fault is planned in [lo,hi].
 func (n *node) static(lo, hi int64) bool {
-	if n.errAll != nil || n.silentAfter >= 0 || n.catchUp > 0 {
+	if n.errAll != nil || n.silentAfter >= 0 || n.catchUp > 0 || n.hostileLayout {
 		return false
 	}
 	for h := range n.errAt {
